@@ -20,15 +20,48 @@ class Builtins:
     # ---- 2**k: exact table for 0..72, uninterpreted (positive, doubling) beyond -----------------
     def pow2(self, k):
         if self._pow2 is None:
-            f = z3.RecFunction('pow2', z3.IntSort(), z3.IntSort())
-            x = z3.Int('x')
+            from . import inst
+            f = z3.Function('pow2', z3.IntSort(), z3.IntSort())
+            x = z3.Int('x!pow2')
             beyond = z3.Function('pow2_big', z3.IntSort(), z3.IntSort())
-            body = beyond(x)
+            # outside the table only positivity is known (1 + |u(x)|)
+            body = 1 + z3.If(beyond(x) >= 0, beyond(x), -beyond(x))
             for j in range(POW2_TABLE_MAX, -1, -1):
                 body = z3.If(x == j, I(2 ** j), body)
-            z3.RecAddDefinition(f, [x], body)
+            inst.define(f, [x], body)
             self._pow2 = f
+        ks = z3.simplify(k)
+        if z3.is_int_value(ks) and 0 <= ks.as_long() <= POW2_TABLE_MAX:
+            return I(2 ** ks.as_long())
         return self._pow2(k)
+
+    # ---- division / modulus / product by a symbolic power of two -----------------------------------------
+    # Kept opaque (uninterpreted pdiv/pmod/pmul over the divisor term) so that the solver does not start nonlinear
+    # reasoning about them; pyvc.discharge.fold turns them into real div/mod/mul as soon as the divisor is a numeral
+    # (after a case split on the exponent).  Abstraction can only lose proofs.
+    def pdiv(self, x, d):
+        ds = z3.simplify(d)
+        if z3.is_int_value(ds):
+            return x / ds
+        return self.ex.uf('pdiv', z3.IntSort(), z3.IntSort(), z3.IntSort())(x, d)
+
+    def pmod(self, x, d):
+        ds = z3.simplify(d)
+        if z3.is_int_value(ds):
+            return x % ds
+        return self.ex.uf('pmod', z3.IntSort(), z3.IntSort(), z3.IntSort())(x, d)
+
+    def pmul(self, x, d):
+        ds = z3.simplify(d)
+        if z3.is_int_value(ds):
+            return x * ds
+        xs = z3.simplify(x)
+        if z3.is_int_value(xs):
+            return xs * d
+        return self.ex.uf('pmul', z3.IntSort(), z3.IntSort(), z3.IntSort())(x, d)
+
+    def is_pow2_term(self, z):
+        return self._pow2 is not None and z3.is_app(z) and z.decl().eq(self._pow2)
 
     # ---- bit operators on mathematical integers (two's complement, infinite width) -----------------
     # shifts are exact arithmetic; and/or/xor are uninterpreted and constrained only by lemmas.
@@ -36,13 +69,13 @@ class Builtins:
         ks = z3.simplify(k)
         if z3.is_int_value(ks):
             return x * I(2 ** ks.as_long())
-        return x * self.pow2(k)
+        return self.pmul(x, self.pow2(k))
 
     def shr(self, x, k):
         ks = z3.simplify(k)
         if z3.is_int_value(ks):
             return x / I(2 ** ks.as_long())
-        return x / self.pow2(k)
+        return self.pdiv(x, self.pow2(k))
 
     def band(self, x, y):
         # x & (2**k - 1) == x mod 2**k  (CPython fact, listed as axiom `and-mask`)
@@ -52,9 +85,94 @@ class Builtins:
                 v = bs.as_long()
                 if v >= 0 and (v + 1) & v == 0:
                     return a % I(v + 1)
+                if v > 0 and v & (v - 1) == 0:
+                    # single-bit mask: x & 2**q == ((x div 2**q) mod 2) * 2**q  (CPython fact, axiom `and-single-bit`)
+                    return ((a / I(v)) % 2) * I(v)
+            kk = self.match_mask(b)
+            if kk is not None:
+                return self.pmod(a, self.pow2(kk))
         return self.ex.uf('band', z3.IntSort(), z3.IntSort(), z3.IntSort())(x, y)
 
-    def bor(self, x, y):
+    def match_mask(self, z):
+        """k if z is syntactically 2**k - 1 (as built by `(1 << k) - 1` or `2**k - 1`), else None"""
+        if self._pow2 is None:
+            return None
+        def is_pow2(t):
+            if z3.is_app(t) and t.decl().eq(self._pow2):
+                return t.arg(0)
+            if z3.is_app_of(t, z3.Z3_OP_MUL) and t.num_args() == 2:
+                a, b = t.arg(0), t.arg(1)
+                if z3.is_int_value(a) and a.as_long() == 1:
+                    return is_pow2(b)
+                if z3.is_int_value(b) and b.as_long() == 1:
+                    return is_pow2(a)
+            return None
+        if z3.is_app_of(z, z3.Z3_OP_SUB) and z.num_args() == 2:
+            one = z.arg(1)
+            if z3.is_int_value(one) and one.as_long() == 1:
+                return is_pow2(z.arg(0))
+        if z3.is_app_of(z, z3.Z3_OP_ADD) and z.num_args() == 2:
+            for a, b in ((z.arg(0), z.arg(1)), (z.arg(1), z.arg(0))):
+                if z3.is_int_value(b) and b.as_long() == -1:
+                    return is_pow2(a)
+        return None
+
+    @staticmethod
+    def single_bit_times_01(y):
+        """(c, v) if y is syntactically c * v with c a power of two and v of the form (t mod 2); (c, None) if y == c"""
+        y = z3.simplify(y)
+        if z3.is_int_value(y):
+            c = y.as_long()
+            if c > 0 and c & (c - 1) == 0:
+                return c, None
+            return None
+        def is01(t):
+            return z3.is_app_of(t, z3.Z3_OP_MOD) and z3.is_int_value(t.arg(1)) and t.arg(1).as_long() == 2
+        if is01(y):
+            return 1, y
+        if z3.is_app_of(y, z3.Z3_OP_MUL) and y.num_args() == 2:
+            a, b = y.arg(0), y.arg(1)
+            for c_, v_ in ((a, b), (b, a)):
+                if z3.is_int_value(c_) and is01(v_):
+                    c = c_.as_long()
+                    if c > 0 and c & (c - 1) == 0:
+                        return c, v_
+        return None
+
+    def bor_exact(self, x, y):  # noqa (also called with self=None)
+        """x | (c*v) for a single bit c and v in {0,1}:  x + c*v - (c if v == 1 and bit c of x is set else 0).
+        Exact for every int x (CPython fact, axiom `or-single-bit`)."""
+        for a, b in ((x, y), (y, x)):
+            m = Builtins.single_bit_times_01(b)
+            if m is not None:
+                c, v = m
+                bit_set = (a / I(c)) % 2 == 1
+                if v is None:
+                    return a + z3.If(bit_set, I(0), I(c))
+                return a + I(c) * v - z3.If(z3.And(v == 1, bit_set), I(c), I(0))
+            bs = z3.simplify(b)
+            if z3.is_int_value(bs) and bs.as_long() == 0:
+                return a
+        return None
+
+    def bor(self, x, y, st=None):
+        ex_ = self.bor_exact(x, y)
+        if ex_ is not None:
+            return ex_
+        # eager use of the (separately proved) lemma `or_sets_clear_bit`: when the path condition already
+        # implies that y is 0 or a single bit that is clear in the byte x, x | y is x + y.
+        if st is not None and 'or_sets_clear_bit' in self.ex.reg.lemmas:
+            hyp = z3.And(x >= 0, x <= 255,
+                         z3.Or([y == 0] + [z3.And(y == 2 ** p, x % (2 ** (p + 1)) == 0) for p in range(8)]))
+            s = z3.Solver()
+            s.set('timeout', 2000)
+            for a in st.pc + st.guards:
+                if not z3.is_quantifier(a):
+                    s.add(a)
+            s.add(z3.Not(hyp))
+            if s.check() == z3.unsat:
+                self.ex.lemmas_applied.add('or_sets_clear_bit')
+                return z3.simplify(x + y)
         return self.ex.uf('bor', z3.IntSort(), z3.IntSort(), z3.IntSort())(x, y)
 
     def bxor(self, x, y):
@@ -80,23 +198,16 @@ class Builtins:
     def list_repeat(self, st, a, b, cx, node, k):
         ex = self.ex
         lst, n = (a, b) if a.ty.kind == 'list' else (b, a)
-        content = ex.list_content(st, lst)
+        m = ex.list_len(st, lst)
+        arr = ex.list_arr(st, lst)
         n = ex.coerce(n, INT).z
-        # [v] * n : a sequence of max(n,0) copies; characterised by length and pointwise value
-        if z3.is_app_of(z3.simplify(content), z3.Z3_OP_SEQ_UNIT) or True:
-            s2, r = ex.alloc(st, lst.ty, 'rep')
-            res = ex.fresh_z(z3.SeqSort(T.sort_of(lst.ty.args[0])), 'repseq')
-            m = z3.Length(content)
-            cnt = z3.If(n > 0, n, I(0))
-            j = z3.Int('j!rep')
-            s2 = s2.assume(z3.Length(res) == m * cnt)
-            simp_m = z3.simplify(m)
-            if z3.is_int_value(simp_m) and simp_m.as_long() == 1:
-                s2 = s2.assume(z3.ForAll([j], z3.Implies(z3.And(j >= 0, j < cnt), res[j] == content[0])))
-            else:
-                raise_vc('list repetition of a non-singleton outside subset')
-            s2 = ex.set_list_content(s2, r, res)
-            return k(s2, r)
+        cnt = z3.If(n > 0, n, I(0))
+        simp_m = z3.simplify(m)
+        if not (z3.is_int_value(simp_m) and simp_m.as_long() == 1):
+            raise_vc('list repetition of a non-singleton outside subset')
+        # [v] * n : max(n, 0) copies of v
+        s2, r = ex.new_list(st, lst.ty, cnt, z3.K(z3.IntSort(), ex.select(arr, I(0))), 'rep')
+        return k(s2, r)
 
     def slice(self, st, e, cx, k):
         ex = self.ex
@@ -112,26 +223,30 @@ class Builtins:
             hi = rest.pop(0) if sl.upper is not None else None
             t = base.ty
             if t.kind == 'list':
-                content = ex.list_content(st, base)
+                n = ex.list_len(st, base)
             elif t.kind in ('seq', 'str'):
                 content = base.z
+                n = z3.Length(content)
             else:
                 raise_vc(f'slice of {t!r} outside subset')
-            n = z3.Length(content)
 
             def norm(v, dflt):
                 if v is None:
                     return dflt
                 z = ex.coerce(v, INT).z
-                z = z3.If(z < 0, z3.If(z + n < 0, I(0), z + n), z3.If(z > n, n, z))
-                return z
+                zs = z3.simplify(z)
+                if z3.is_int_value(zs) and zs.as_long() == 0:
+                    return I(0)
+                return z3.If(z < 0, z3.If(z + n < 0, I(0), z + n), z3.If(z > n, n, z))
             a = norm(lo, I(0))
             b = norm(hi, n)
             ln = z3.If(b > a, b - a, I(0))
-            res = z3.SubSeq(content, a, ln) if t.kind != 'str' else z3.SubString(content, a, ln)
             if t.kind == 'list':
-                s2, r = ex.alloc(st, t, 'slc')
-                return k(ex.set_list_content(s2, r, res), r)
+                arr = ex.list_arr(st, base)
+                jv = z3.Int('j!slc')
+                s2, r = ex.new_list(st, t, ln, z3.Lambda([jv], z3.Select(arr, jv + a)), 'slc')
+                return k(s2, r)
+            res = z3.SubSeq(content, a, ln) if t.kind != 'str' else z3.SubString(content, a, ln)
             return k(st, T_SV(t, res))
         return ex.ev_list(st, [e.value] + parts, cx, f)
 
